@@ -19,6 +19,8 @@ def main():
     run.assumptions += ["names and lock state are not in the property's list and are not compared", "keys satisfy PathSafeKeys (excluded points are run and reported separately)"]
     from c12_fns import guarded_stream, hard_deadline, single_threaded_torch
     single_threaded_torch()
+    from c12_fns import route_metadata_race
+    route_metadata_race(run)
     quick = run.tier == "quick"
     import c11_gen
     try:
@@ -46,11 +48,12 @@ def main():
         import c10_leaf
         with hard_deadline(300 if quick else 1500, "leaf level"):
             guarded_stream(run, "leaf", c10_leaf.run_leaf, run, drv)
+            guarded_stream(run, "constructors", c10_leaf.run_ctors_pools, run, drv)
         with hard_deadline(420 if quick else 3000, "model streams"):
             guarded_stream(run, "model-streams", c10_mm.run_model_streams, run, drv)
         import c10_ext
         with hard_deadline(420 if quick else 3000, "extended domain (other processes)"):
-            guarded_stream(run, "ext", c10_ext.run_ext, run)
+            guarded_stream(run, "ext", c10_ext.run_ext, run, drv)
         # return_early=True: result() hands the tensordict back only when every writer task is done, and a load at that moment
         # returns the tensordict saved (same stream as C12's, seen from the save/load side)
         import c12_threads
@@ -58,6 +61,8 @@ def main():
             guarded_stream(run, "return-early", c12_threads.run_return_early, run, tag="c10e")
             # existsok=False over a former save: same outcome and same directory as the single-threaded form
             guarded_stream(run, "existsok", c12_threads.run_existsok, run, tag="c10x")
+            # the writer task of a non-tensor entry under forced schedules against the model C10.MetaTask and the single-threaded save
+            guarded_stream(run, "metadata-task", c12_threads.run_metadata_race, run, drv, tag="c10m")
     run.finish("proof")
 
 
